@@ -171,6 +171,22 @@ def oracle(ctx, only=None):
             ctx.count(('gbasis', label, kind, mesh.p.tolist(), X.tolist()), nontrivial=(kind != 'ref'))
             ctx.hist('cell_kind', kind)
             ctx.hist('refdom', rd)
+        import skfem.element as E_
+        if isinstance(e, E_.ElementGlobal):
+            for kind in ['affine'] + (['multilinear'] if rd in ('RefQuad', 'RefHex') else []) + ([] if ctx.quick() else ['ref', 'affine']):
+                mesh = c09_oracle.random_mesh(rd, rng, kind)
+                try:
+                    with warnings.catch_warnings():
+                        warnings.simplefilter('ignore')
+                        n, w = c09_oracle.check_global_duality(label, f, mesh, ctx.fail)
+                except Exception as ex:  # noqa
+                    import traceback
+                    ctx.fail(f'elem={label}:functional-duality-exception', f'{label}: {type(ex).__name__}: {ex}',
+                             {'element': label, 'p': mesh.p.tolist(), 't': mesh.t.tolist(), 'traceback': traceback.format_exc()[-1200:]})
+                    continue
+                ctx.cov['evaluations'] += n
+                ctx.count(('gdual', label, kind, mesh.p.tolist()), nontrivial=(kind != 'ref'))
+                ctx.extra['max_global_functional_duality_deviation'] = max(ctx.extra.get('max_global_functional_duality_deviation', 0.0), w)
         try:
             oracle_reference(ctx, label, f)
         except Exception as ex:  # noqa
